@@ -487,6 +487,14 @@ Theorem judgement_admitted_runs_exact : forall cfg w c,
 Proof. exact pc_admit_runs_exact. Qed.
 Print Assumptions judgement_admitted_runs_exact.
 
+(* the wrapper judgement (its own failure tables, written out independently of WrapModel, and the
+   "context counts on entry only" rule) accepts the model's record for every call site, admitted
+   or rejected, every context life, every downstream outcome: the tables agree *)
+Theorem judgement_wrapper_accepts_model : forall k rej x d,
+  wcall_prop (mkWC k rej x d) (wobs_of k d (wrapx k rej x d)) = true.
+Proof. exact wcall_prop_accepts_model. Qed.
+Print Assumptions judgement_wrapper_accepts_model.
+
 (* ---- non-vacuity: concrete histories meeting the hypotheses (today's constants) *)
 
 Definition ex_base : Z := 1000000000000.
